@@ -1,3 +1,4 @@
+CONSTANT Want = {"c03"}
 INIT TraceInit
 NEXT TraceNext
 INVARIANTS C03_Durations
